@@ -79,13 +79,21 @@ def make_probes(case, info, r):
         if free:
             kinds += ["groupadd_mutate", "groupadd_summarize", "group_summarize"]
         if ints:
-            kinds += ["mutate_sum", "summarize_sum", "filter", "arrange"]
+            kinds += ["mutate_sum", "summarize_sum", "filter", "arrange", "mutate_rank", "mutate_drank"]
         for kind in r.sample(kinds, min(len(kinds), 3)):
             q += 1
             pid = f"Q{q}"
             ic = r.choice(ints) if ints else None
             fc = r.choice(free) if free else None
             sm = ["shared", f"sum_{ic}", ["fn", "sum", [["c", ic]]]] if ic else None
+            oc = r.choice(names)
+            # window functions whose ordering / partitioning is given BY NAME (C.<col>): one object used in several
+            # tables.  rank / dense_rank give equal keys equal values, so ties in the keys leave the result determined; the
+            # null placement is always given (without a marker it is documented as backend-dependent)
+            sh = ["shared", f"rank_{ic}_{oc}", ["fn", "rank", [], {"partition_by": [["c", oc]],
+                                                                   "arrange": [["ord", ["c", ic], True, True]]}]] if ic else None
+            cs = ["shared", f"drank_{ic}_{oc}", ["fn", "dense_rank", [], {"arrange": [["ord", ["c", ic], False, False],
+                                                                                      ["ord", ["c", oc], True, True]]}]] if ic else None
             steps = {
                 "mutate_cnt": [["mutate", [["zz9", cnt]]]],
                 "summarize_cnt": [["summarize", [["zz8", cnt]]]],
@@ -94,6 +102,8 @@ def make_probes(case, info, r):
                 "groupadd_summarize": [["group_by", [["c", fc]], True], ["summarize", [["zz8", cnt]]]],
                 "group_summarize": [["group_by", [["c", fc]], False], ["summarize", [["zz8", cnt]]]],
                 "mutate_sum": [["mutate", [["zz7", sm]]]],
+                "mutate_rank": [["mutate", [["zz5", sh]]]],
+                "mutate_drank": [["mutate", [["zz4", cs]]]],
                 "summarize_sum": [["summarize", [["zz6", sm]]]],
                 "filter": [["filter", [["shared", f"pos_{ic}", ["fn", "greater_than", [["c", ic], ["lit", 0]]]]]]],
                 "arrange": [["arrange", [["shared", f"ord_{ic}", ["ord", ["c", ic], True, True]]]], ["slice_head", 2, 0]],
